@@ -86,6 +86,17 @@ HAND_SEEDS = {
 2 0.6 0.5 110 0.4
 [End]
 """,
+    # network parameter data with the older #:rows / #:columns keywords
+    "h_npd_rows_columns.npd": b"""#NPD
+#:version 1.0
+#:rows 2
+#:columns 2
+#:frequencies 2
+#:parameters Sri
+#:z0 50 0 75 0
+1e9 0.1 0.2 0.3 0.4 0.5 0.6 0.7 0.8
+2e9 0.2 0.1 0.4 0.3 0.6 0.5 0.8 0.7
+""",
     # pre-release calibration file that names its type
     "h_legacy_typed.vnacal": b"""#VNACAL 2.0
 %YAML 1.1
@@ -179,6 +190,41 @@ def mutate(data, rng):
     n = int(rng.integers(0, 23))
     if data[:4].upper() == b"#VNA" and rng.random() < 0.2:
         n = 21 + int(rng.integers(0, 2))   # calibration files: key / value edits
+    if data[:4] == b"#NPD" and rng.random() < 0.35:
+        # NPD header: a "#:keyword value" line inserted or its value replaced
+        lines = data.split(b"\n")
+        hdr = [k for k, ln in enumerate(lines) if ln.startswith(b"#:")]
+        if hdr:
+            kws = [b"ports", b"rows", b"columns", b"frequencies", b"z0",
+                   b"parameters", b"fprecision", b"dprecision", b"version"]
+            kw = bytes(kws[int(rng.integers(0, len(kws)))])
+            if rng.random() < 0.3:
+                kw = bytes(kws[int(rng.integers(0, 3))])   # a dimension
+            if kw == b"z0":
+                val = bytes(rng.choice([b"PER-FREQUENCY", b"50 0", b"50 0 75 0",
+                                        b"50 0 75 0 60 -1", b"1 0 1 0 1 0 1 0"]))
+            elif kw == b"parameters":
+                val = bytes(rng.choice([b"Sri", b"Zma", b"SdB,Zri", b"ri", b"IL",
+                                        b"Tri", b"Zinri"]))
+            elif kw == b"version":
+                val = bytes(rng.choice([b"1.0", b"1.1", b"2.0", b"0.9"]))
+            else:
+                val = bytes(rng.choice([b"0", b"1", b"2", b"3", b"4", b"5", b"8",
+                                        b"-1", b"65536"]))
+                if rng.random() < 0.5:
+                    # a little more than the dimensions the header states
+                    ints = [int(x) for ln in lines if ln.startswith(b"#:")
+                            for x in ln.split()[1:2] if x.isdigit()]
+                    if ints:
+                        val = b"%d" % (max(ints) + int(rng.integers(1, 3)))
+            k = hdr[int(rng.integers(0, len(hdr)))]
+            if rng.random() < 0.5:
+                k = hdr[-1]       # at the end of the header
+            if rng.random() < 0.6:
+                lines.insert(k + 1, b"#:" + kw + b" " + val)
+            else:
+                lines[k] = lines[k].split(b" ", 1)[0] + b" " + val
+            return b"\n".join(lines)
     if not data:
         return bytes(rng.integers(0, 256, int(rng.integers(0, 20)), dtype=np.uint8))
     if n == 0:      # truncate
